@@ -554,7 +554,7 @@ func (j *judge) judgeCase(cr caseRuns, recs []runRecord, serialRef *runRecord) {
 	c := j.c
 	c.Eval()
 	c.Count("cases", 1)
-	var ok []runRecord
+	var ok, stalledRuns []runRecord
 	crashed := 0
 	for _, rr := range recs {
 		c.Count("runs", 1)
@@ -570,14 +570,27 @@ func (j *judge) judgeCase(cr caseRuns, recs []runRecord, serialRef *runRecord) {
 			}
 			j.noraceReported = true
 			j.mu.Unlock()
+		case strings.HasPrefix(rr.Fail, "stalled:"):
+			stalledRuns = append(stalledRuns, rr)
 		default:
 			crashed++
+		}
+	}
+	if len(stalledRuns) > 0 {
+		c.Count("executions_stalled_by_state", int64(len(stalledRuns)))
+		if len(ok) > 0 {
+			c.Violation("C05|outcome-differs-between-identical-executions|completed-vs-deadlocked|"+cr.Case.Name,
+				fmt.Sprintf("case %s: %d of %d executions of the same program, inputs and configuration completed, %d deadlocked (engine time and all driver yield counters unchanged and every simulator / driver / application goroutine parked for %d consecutive samples): whether the simulation terminates depends on host scheduling",
+					cr.Case.Name, len(ok), len(recs), len(stalledRuns), stallObservations),
+				map[string]any{"case": cr.Case, "runs": cr.Runs, "stalled_run": stalledRuns[0].Job.Run, "completed_run": ok[0].Job.Run, "stall_record": stalledRuns[0].Fail})
+		} else {
+			c.Inconclusive(fmt.Sprintf("case %s: every execution deadlocked (decided by state); not a reproducibility verdict", cr.Case.Name))
 		}
 	}
 	if crashed > 0 {
 		var crashRec runRecord
 		for _, rr := range recs {
-			if !rr.OK && rr.Fail != "watchdog" && !strings.HasPrefix(rr.Fail, "norace:") {
+			if !rr.OK && rr.Fail != "watchdog" && !strings.HasPrefix(rr.Fail, "norace:") && !strings.HasPrefix(rr.Fail, "stalled:") {
 				crashRec = rr
 				break
 			}
@@ -1172,7 +1185,12 @@ func (j *judge) judgeRepetitions(cr caseRuns, rr runRecord) {
 		w["compared_with"] = "repetition 1 of the same process"
 		return w
 	}
-	if rr.RepFail != "" {
+	if strings.HasPrefix(rr.RepFail, "stalled:") {
+		c.Count("executions_stalled_by_state", 1)
+		c.Violation("C05|outcome-differs-between-identical-executions|completed-vs-deadlocked|"+cr.Case.Name,
+			fmt.Sprintf("case %s: the first execution of the simulation in a process completed, a later one in the same process deadlocked (decided by state)", cr.Case.Name),
+			map[string]any{"case": cr.Case, "runs": cr.Runs, "run": rr.Job.Run, "stall_record": rr.RepFail})
+	} else if rr.RepFail != "" {
 		c.Violation(pre+"crash|"+crashClass(rr.RepFail),
 			fmt.Sprintf("case %s: the first execution of the simulation in a process completed, a later one in the same process did not: %s", cr.Case.Name, firstLineOf(rr.RepFail)),
 			map[string]any{"case": cr.Case, "runs": cr.Runs, "run": rr.Job.Run, "output_tail": rr.RepFail})
@@ -1337,9 +1355,18 @@ func parentMain() {
 	}
 	vlib.Parallel(len(jobs), workers, func(i int) {
 		jr := jobs[i]
+		if watchdogsFired.Load() >= 2 { // bound the run: do not launch further children
+			recs[jr.ci][jr.ri] = runRecord{Job: childJob{Case: all[jr.ci].Case, Run: all[jr.ci].Runs[jr.ri]}, Fail: "skipped"}
+			return
+		}
 		recs[jr.ci][jr.ri] = execRun(bins, scratch, childJob{Case: all[jr.ci].Case, Run: all[jr.ci].Runs[jr.ri]})
 	})
 
+	if n := watchdogsFired.Load(); n >= 2 {
+		cleanup()
+		c.Inconclusive(fmt.Sprintf("%d children hit the %v watchdog without a logical verdict; no further children were launched and nothing is judged", n, childWatchdog))
+		c.Finish(vlib.FinishOpts{Rule: "run abandoned after two watchdog firings", MinNontrivial: 2})
+	}
 	j := &judge{c: c, handoffObserved: map[string]int{}, maxSameBank: map[string]int64{}}
 	serialRef := map[string]*runRecord{}
 	for ci, cr := range cases {
